@@ -15,6 +15,20 @@ type PropSpec struct {
 }
 
 var properties = map[string]PropSpec{
+	"C20": {
+		Level: "other",
+		Explanation: "Structural necessary conditions of C20, decided on the SSA of everything reachable from Stack.Reveal. (W) The transitive write set of Reveal is {element slot, Condition expression, lock bookkeeping}: no slice header is stored, so no stack changes its length (nothing added, dropped or duplicated by shifting), no configuration word (kind, options, parenthetical flag) is written, nothing is appended. (PROV) The only element-slot store in the scope is replace(), called once (revealDescend), at the index the inner stack was found at, and on every path the value stored is the inner stack itself (re-stored in place) or its only child - the latter exactly under kind != NOT, exactly one element, child is a Stack/Condition (Interface) and neither wrapper nor child parenthetical (facts required on each such path); reveal hands revealDescend the element it found at i together with that i; the only expression store is SetExpression in revealSingle, which gives the Condition back its own (converted, revealed-in-place) expression stack. (ALLOC) No Stack, Condition or configuration is constructed in the scope, so nesting depth cannot grow. (LOCK) In every function of the scope, nothing called while a stack's lock is held (region = CFG-reachable from lock() without passing unlock()) locks the same stack again: no self-deadlock with the mutex enabled. (PANIC) The nil/reflect/type-assertion/bounds census restricted to the scope, with preconditions checked at every call site.",
+		NotDecided: "that the depth-first leaf sequence is identical before and after for every tree and that both reduce to the same fully-unwrapped form (tree-valued functional equality); deadlock through a stack that contains itself or through two goroutines (C10); user String()/Operator code.",
+		Run: func(c *Ctx) {
+			c.ruleInv()
+			if root := c.p.ByName["Stack.Reveal"]; root != nil {
+				c.ruleCensus(c.reach(root), map[string]bool{"R-NIL": true, "R-REFL": true, "R-TA": true, "R-BND": true})
+			}
+			c.ruleReveal()
+			c.rep.floor("R-REVEAL", 8)
+			c.rep.floor("R-NIL", 100)
+		},
+	},
 	"C03": {
 		Level: "other",
 		Explanation: "An inductive-invariant argument, checked on the SSA of the whole package. INV-CAP: for every slice header a stack object ever holds, cap == 0 or len(header) <= cap, where cap is the capacity word of the configuration in slot 0 (Len() == len-1, Cap() == cap-1, so Len() <= k). Base (R-CAPEQ newStack): the word is requested+1 for a positive request, 0 otherwise, and the empty backing array is made with that capacity. Frame (R-CAPW, R-SLOT0): the word is written nowhere else; slot 0 keeps holding the same configuration - every header store derives its value from the object's own header by re-slicing from 0 with high >= 1, appending to a non-empty header, or rebuilding from its own configuration; element stores and bulk copies through a header use a slot >= 1 (interprocedural bounds census restricted to those sites); by-value stack arguments are loaded headers. Step (R-CAP): every store of a header anywhere in the package (push loops, Insert, Pop, Remove, Reset, Defrag - hence also Transfer-into and Marshal-into, which only grow through push) is proved, on every path state, to keep the invariant: Fourier-Motzkin entailment of len(new) <= cap from the path's guards (isFull()==false evaluated on the very header being extended, Insert's capacity guard), assuming the invariant for the headers read so far. Observers (R-CAPEQ): the return cases of Len, Cap, Avail, IsFull and isFull are proved equal to len-1, cap-1 / -1, cap-len / -1 and (cap != 0 and len == cap), i.e. Cap()==k, Avail()==k-Len(), IsFull()==(Len()==k), and -1/-1/never full without a capacity.",
